@@ -14,10 +14,17 @@ MC_CPMATH = {"module": "MC_CpMath", "quick": "MC_CpMath_quick.cfg", "thorough": 
 MC_CPMATH10 = {"module": "MC_CpMath", "quick": "MC_CpMath_dec10.cfg", "thorough": "MC_CpMath_dec10.cfg", "workers": 4,
                "timeout": {"quick": 600, "thorough": 3000}}
 
+VAULT_SUITE = {"suite": "vault", "trace": "Trace_Vault", "cfg": "Trace_Vault.cfg",
+               "quick": {"runs": 240, "ops": 30}, "thorough": {"runs": 6000, "ops": 40}, "procs": 8}
+MC_VAULT = {"module": "MC_Vault", "quick": "MC_Vault_quick.cfg", "thorough": "MC_Vault.cfg", "workers": 6,
+            "timeout": {"quick": 600, "thorough": 3000}}
+
 PROPS = {
     "C01": {"mc": [MC_POOL], "suites": [POOL_SUITE]},
     "C02": {"mc": [MC_CPMATH], "suites": [MATH_CP, POOL_SUITE]},
-    "C07": {"mc": [MC_POOL], "suites": [POOL_SUITE]},
-    "C14": {"mc": [MC_POOL], "suites": [POOL_SUITE]},
+    "C05": {"mc": [MC_VAULT], "suites": [VAULT_SUITE]},
+    "C06": {"mc": [MC_VAULT], "suites": [VAULT_SUITE]},
+    "C07": {"mc": [MC_POOL, MC_VAULT], "suites": [POOL_SUITE, VAULT_SUITE]},
+    "C14": {"mc": [MC_POOL, MC_VAULT], "suites": [POOL_SUITE, VAULT_SUITE]},
     "C15": {"mc": [MC_POOL], "suites": [POOL_SUITE, MATH_SPREAD]},
 }
